@@ -199,3 +199,9 @@ func str(m map[string]any, k string) string {
 	s, _ := m[k].(string)
 	return s
 }
+
+func hmacSHA256(key, data []byte) []byte {
+	m := hmacNew(key)
+	m.Write(data)
+	return m.Sum(nil)
+}
